@@ -10,9 +10,9 @@ use crate::{
 };
 
 use super::{
-    expect_token,
+    enter_nest, expect_token,
     expr::{parse_closure_expr, parse_expr},
-    if_token_bump, parse_block,
+    if_token_bump, leave_nest, parse_block,
 };
 
 /// Push expression parsing error with lazy error message generation
@@ -234,6 +234,18 @@ fn block_follow(p: &LuaParser) -> bool {
 }
 
 fn parse_stat(p: &mut LuaParser) -> ParseResult {
+    if !enter_nest(p) {
+        // consume the token so that the enclosing statement loop makes progress
+        let m = p.mark(LuaSyntaxKind::UnknownStat);
+        p.bump();
+        return Ok(m.complete(p));
+    }
+    let result = parse_stat_inner(p);
+    leave_nest(p);
+    result
+}
+
+fn parse_stat_inner(p: &mut LuaParser) -> ParseResult {
     let cm = match p.current_token() {
         LuaTokenKind::TkIf => parse_if(p)?,
         LuaTokenKind::TkWhile => parse_while(p)?,
